@@ -194,14 +194,34 @@ def replay_obligation(prop, name, bad, tier='quick', seed=0):
 
 
 def replay_file(prop, path):
-    rec = json.load(open(path if os.path.isabs(path) else os.path.join(HOME, path)))
-    print(json.dumps(rec, indent=1)[:4000])
+    import replay
+    return replay.run_file(prop, path, HOME)
     rep = replay_obligation(prop, rec.get('obligation', rec.get('name', '?')), rec.get('failing_paths', []))
     print("replay:", rep)
     return 1 if rep and rep.get('failing_input_found') else 0
 
 
 # obligations of these units are discharged by several workers (each re-executes the unit, then takes its share)
+ASSUMPTION_TEXT = {
+    'A-HASH': "sha256d / blake2 / scrypt are total functions of their arguments with 32-byte results (injective only where a lemma states it as an explicit hypothesis)",
+    'A-ECDSA': "ecdsa verification is a function of (key, signature, message); a signature made with a private key verifies under its public key; library errors may escape",
+    'A-LEX': "for equal-length byte strings, Python's order is big-endian numeric order",
+    'A-STRUCT': "struct.pack/unpack and int.to_bytes/from_bytes are inverse on the format's range (struct.error outside)",
+    'A-IMMUT': "immutables.Map is a persistent finite map (set/delete/mutate do not alter the receiver)",
+    'A-MAPSUM': "update laws of a sum over a finite map (set / delete change the sum by the difference)",
+    'A-FRESH': "ids of a candidate block's transactions differ from ids of transactions in its ancestor chain",
+    'A-KEY': "a wallet's key pairs are matching (public key of the stored private key)",
+    'A-ENC': "serialize() is a function of the object; it raises when a field does not fit its wire format",
+    'A-LOG': "logging, print and traceback formatting neither raise nor have relevant effects",
+    'A-SOCK': "socket / selector calls return something unexamined or raise an exception of an unknown class",
+    'A-SQL': "sqlite: a table is a map from primary key to row; one BEGIN..COMMIT is all-or-nothing",
+    'A-IO': "BytesIO is a byte sequence with a cursor; read(n) returns at most n bytes",
+    'A-ITER': "iterating a dict visits every key exactly once, in an unknown order; dicts are finite",
+    'A-RENAME': "os.replace is atomic with respect to process crashes; a file closed by `with` holds everything written",
+    'A-JSON': "json.dump/load and hexlify/unhexlify are inverse on the wallet's data",
+    'A-DOMSEP': "a 32-byte id is never the hash of a 64-byte pair in play (free hash algebra, Lean lemma only)",
+}
+
 PARALLEL = {
     'skepticoin.networking.remote_peer.ConnectedRemotePeer.handle_block_received': 8,
     'skepticoin.balances.uto_apply_transaction': 6,
